@@ -43,7 +43,10 @@ class _FragmentVars(dict):
         raise AnchorNotFound(f"anchor-not-found: fragment of {self._module} no longer defines the local '{key}' the contract reads back")
 
 
-def find_fragment(sources, module, qualname, patterns, exprs=False):
+def find_fragment(sources, module, qualname, patterns, exprs=False, skips=()):
+    """statements (or one expression) of a repo function located by source-text anchors.  For statements: when all anchors are
+    siblings of one block, the fragment is the WHOLE span from the first to the last anchor - a statement inserted between them
+    belongs to it - minus the statements the contract explicitly leaves to an assumed dependency (`skips`, text prefixes)."""
     import ast
     got = sources.load(module)
     if got is None:
@@ -72,6 +75,20 @@ def find_fragment(sources, module, qualname, patterns, exprs=False):
         if hit is None:
             raise AnchorNotFound(f"anchor-not-found: statement starting with {pat!r} in {module}:{qualname}")
         out.append(hit)
+    if not exprs and len(out) > 1:
+        where = {}
+        for n in ast.walk(node):
+            for field in ("body", "orelse", "finalbody"):
+                blk = getattr(n, field, None)
+                if isinstance(blk, list):
+                    for i, st in enumerate(blk):
+                        where[id(st)] = (blk, i)
+        blocks = {id(where[id(h)][0]) for h in out if id(h) in where}
+        if len(blocks) == 1 and all(id(h) in where for h in out):
+            blk = where[id(out[0])][0]
+            idx = [where[id(h)][1] for h in out]
+            out = [st for st in blk[min(idx):max(idx) + 1]
+                   if st in out or not any(ast.unparse(st).startswith(sk) for sk in skips)]
     return out
 
 
@@ -94,6 +111,7 @@ class Path:
         self.sl.set("timeout", 3000)
         self.unknown_feasibility = False
         self.order_sampled = False
+        self.gc_deferred = False
         self.order_mode = None
 
     def add_fact(self, f, tag):
@@ -269,10 +287,11 @@ class SymCtx:
             raise
         return None
 
-    def fragment(self, module, qualname, patterns):
-        """statement contract: the statements of function `qualname` whose source text (ast.unparse) starts with one
-        of `patterns`, in source order (structural anchors, no line numbers); AnchorNotFound if one is missing"""
-        return find_fragment(self.ex.sources, module, qualname, patterns)
+    def fragment(self, module, qualname, patterns, skips=()):
+        """statement contract: the statements of function `qualname` from the first to the last anchor (source text, ast.unparse,
+        starts with one of `patterns`; structural anchors, no line numbers), everything in between included except `skips`;
+        AnchorNotFound if an anchor is missing"""
+        return find_fragment(self.ex.sources, module, qualname, patterns, skips=skips)
 
     def fragment_expr(self, module, qualname, pattern):
         """the first EXPRESSION of the function whose source text (ast.unparse) equals `pattern` - survives a statement being
@@ -295,12 +314,16 @@ class SymCtx:
         reads back, the code was restructured - that is `anchor-not-found` (undecided), never a violation."""
         m = self.module(module)
         e = I.Env(m.env, dict(env))
+        self.it.frame_stack.append(e)               # the fragment's locals are a frame of their own (finaliser model, Interp.drop_ref)
         try:
             self.it.exec_block(stmts, e, m, None)
         except I.IRaise as r:
             if isinstance(r.exc, (NameError, UnboundLocalError)):
                 raise AnchorNotFound(f"anchor-not-found: fragment of {module} reads a local the contract does not provide ({r.exc})")
             raise
+        finally:
+            if e in self.it.frame_stack:
+                self.it.frame_stack.remove(e)
         return _FragmentVars(e.vars, module)
 
     def alloc(self, cls, **attrs):
@@ -451,6 +474,7 @@ class Explorer:
         self.errors = []
         self.unknown_feasibility = False
         self.order_sampled = False
+        self.gc_deferred_paths = set()
         self.collect_only = False
         self.failed = False
         self.stop_after_failure = True
@@ -491,6 +515,8 @@ class Explorer:
                 sym._fact_sink[0] = None
             self.unknown_feasibility |= path.unknown_feasibility
             self.order_sampled |= path.order_sampled
+            if path.gc_deferred:
+                self.gc_deferred_paths.add(self.path_counter)
             self.paths.append(dict(id=self.path_counter, decisions=len(path.taken), status=status,
                                    vcs=len(ctx.vcs)))
             self.vcs.extend(ctx.vcs)
@@ -550,8 +576,8 @@ class NativeCtx:
     def call(self, f, *a, **k): return f(*a, **k)
     def callm(self, obj, name, *a, **k): return getattr(obj, name)(*a, **k)
 
-    def fragment(self, module, qualname, patterns):
-        return find_fragment(Sources(), module, qualname, patterns)
+    def fragment(self, module, qualname, patterns, skips=()):
+        return find_fragment(Sources(), module, qualname, patterns, skips=skips)
 
     def fragment_expr(self, module, qualname, pattern):
         return find_fragment(Sources(), module, qualname, [pattern], exprs=True)[0]
